@@ -602,11 +602,13 @@ func (p *Process) StartWith(ctx context.Context, element schema.FlowNodeInterfac
 	}
 	switch eventNode := flowNode.(type) {
 	case *startEvent:
-		eventNode.Trigger(ctx)
-
-		// StartAll cease flow monitor
+		// StartAll cease flow monitor. It subscribes to the traces before the start event is
+		// triggered: a flow that leaves the start event before the monitor has subscribed would
+		// never be seen, and the instance would never be reported complete.
 		sender := p.tracer.RegisterSender()
-		go p.ceaseFlowMonitor(p.subTracer)(ctx, sender)
+		monitor := p.ceaseFlowMonitor(p.subTracer)
+		eventNode.Trigger(ctx)
+		go monitor(ctx, sender)
 		p.tracer.Send(InstantiationTrace{InstanceId: p.id})
 
 	case *throwEvent:
